@@ -227,7 +227,12 @@ def run(ck):
         las = fio.make_las(ck.rng, minor, fmt, n, scales=sc, offsets=of)
         for d in "XYZ":
             las.points.array[d] = np.array([ck.rng.randrange(-10**5, 10**5) for _ in range(n)], dtype="i4")
-        of2 = [of[0] + ck.rng.choice([1.0, 2.0, 0.5]), of[1] + ck.rng.choice([2.0, 0.25]), of[2]]
+        of2 = [of[0] + ck.rng.choice([1.0, 2.0, 0.5]), of[1] + ck.rng.choice([2.0, 0.25, -0.5, -2.0]), of[2]]
+        # the last point of the second chunk sits on the edge of what the file's scaling can hold (the largest / smallest 32-bit integer)
+        las.points.array["X"][-1] = 2**31 - 1
+        if of2[1] < of[1]:
+            las.points.array["Y"][-1] = -2**31
+        las.update_header()
         half = n // 2
         second = laspy.ScaleAwarePointRecord(las.points.array[half:].copy(), las.header.point_format, np.array(sc), np.array(of))
         second.change_scaling(offsets=np.array(of2))          # the same coordinates, expressed in the other tile's offsets (exact: dyadic)
